@@ -263,7 +263,10 @@ def _dechunk_strict(data: bytes):
         i = data.find(b"\r\n", pos)
         if i < 0:
             return None
-        line = data[pos:i].split(b";")[0]
+        whole = data[pos:i]
+        if any(ch < 0x20 and ch != 0x09 or ch >= 0x7F for ch in whole):
+            return None  # e.g. the CR of a size line was hit: the "line" now runs on into chunk data (readers that accept a bare LF see other chunks)
+        line = whole.split(b";")[0]
         try:
             n = int(line, 16)
         except ValueError:
